@@ -289,6 +289,24 @@ pub fn evaluate(scn: &Scenario, rr: &RunRes) -> Vec<RawViol> {
                 _ => {}
             }
         }
+        // a list that is refused while every one of its lines, alone, is accepted
+        let mut alone: BTreeMap<usize, BTreeMap<usize, (usize, bool)>> = BTreeMap::new();
+        for (si, st) in inst.steps.iter().enumerate() {
+            if st.v == "single" && st.p.len() == 1 {
+                if let Some(out) = rr.outcomes[ii][si].as_ref() {
+                    alone.entry(st.call).or_default().entry(st.p[0]).or_insert((si, split(out).0 == 'O'));
+                }
+            }
+        }
+        for (call, m) in &alone {
+            let Some(&ls) = local.get(call) else { continue };
+            let base = rr.outcomes[ii][ls].as_ref().unwrap();
+            let nw = scn.calls[*call].words.len();
+            if split(base).0 == 'E' && m.len() == nw && m.values().all(|(_, ok)| *ok) {
+                let (&_k, &(si, _)) = m.iter().next().unwrap();
+                viols.push(RawViol { clause: "word-singleton", call: *call, a: (ii, ls), b: (ii, si), out_a: base.clone(), out_b: rr.outcomes[ii][si].clone().unwrap() });
+            }
+        }
     }
     viols
 }
@@ -782,6 +800,12 @@ fn build_inst(seed: u64, block: u64, j: usize, calls: &[usize], ncalls_words: &d
             if r.chance(1, 2) {
                 let i = r.below(nw);
                 steps.push(Step { call: c, thread: r.below(threads), v: "single".into(), p: vec![i] });
+                if nw <= 6 && r.chance(1, 3) {
+                    // ... and every other line on its own too: a list that fails holds a line that fails
+                    for k in (0..nw).filter(|k| *k != i) {
+                        steps.push(Step { call: c, thread: r.below(threads), v: "single".into(), p: vec![k] });
+                    }
+                }
             }
         }
     }
